@@ -1199,6 +1199,11 @@ func Run(c *ev.Ctx) int {
 			runStrat(c, x.strat, x.cases)
 		}()
 	}
+	wg.Add(1)
+	go func() {
+		defer wg.Done()
+		laneEcdsa(c)
+	}()
 	// concurrent lane: integrity must not depend on what else the process decodes at the same moment
 	rc := c.Rng("concurrent")
 	modes := []string{"plain", "fewprocs", "race"}
